@@ -12,19 +12,31 @@ QueryCases(B) == {[op |-> "query", B |-> B, chy |-> t.chy, chx |-> t.chx, pq |->
 \* pairs: a reduced set of destination-to-source maps (see ReprojGen), 2 shape/tiling pairs, same CRS or the exact-translation CRS (general path)
 PScales == {960, -960, 1920, 480, 1440}
 PShifts == {k * 960 + r : k \in IF Tier = "quick" THEN {-7, -3, 0, 2, 5} ELSE -8..8, r \in {0, 60, -60, 480}}
-PairTilings == {[sy |-> <<2, 2, 2>>, sx |-> <<3, 3>>, dy |-> <<2, 3>>, dx |-> <<2, 2, 2>>], [sy |-> <<1, 2, 3>>, sx |-> <<4, 2>>, dy |-> <<3, 3>>, dx |-> <<4, 1>>]}
+PairTilings == {[sy |-> <<2, 2, 2>>, sx |-> <<3, 3>>, dy |-> <<2, 3>>, dx |-> <<2, 2, 2>>], [sy |-> <<1, 2, 3>>, sx |-> <<4, 2>>, dy |-> <<3, 3>>, dx |-> <<4, 1>>],
+                \* rasters of the SAME shape (with the identity map: one grid tiled twice): same number of tiles with other boundaries, the same tiling,
+                \* regular tile sizes that do not divide the image
+                [sy |-> <<1, 2, 3>>, sx |-> <<4, 2>>, dy |-> <<3, 2, 1>>, dx |-> <<2, 4>>], [sy |-> <<2, 2, 2>>, sx |-> <<3, 3>>, dy |-> <<2, 2, 2>>, dx |-> <<3, 3>>],
+                [sy |-> <<4, 2>>, sx |-> <<4, 2>>, dy |-> <<5, 1>>, dx |-> <<5, 1>>]}
 Mk2(t, A, crs) == [op |-> "pair", hs |-> SumTo(t.sy, Len(t.sy)), ws |-> SumTo(t.sx, Len(t.sx)), hd |-> SumTo(t.dy, Len(t.dy)), wd |-> SumTo(t.dx, Len(t.dx)),
                    A |-> A, sy |-> t.sy, sx |-> t.sx, dy |-> t.dy, dx |-> t.dx, crs |-> crs]
 PairCases(sx) == {Mk2(t, <<sx, 0, tx, 0, sy, ty>>, crs) : tx \in PShifts, sy \in {Abs(sx), -Abs(sx)}, ty \in {0, 2880, -1980, 7000}, t \in PairTilings, crs \in {"same", "other"}}
                  \cup {Mk2(t, <<0, -sx, tx, sx, 0, ty>>, "same") : tx \in {0, 4800, 9000}, ty \in {0, -3000, 7000}, t \in PairTilings}
                  \cup {Mk2(t, <<576, -768, tx, 768, 576, ty>>, "same") : tx \in {0, 4800, 9000}, ty \in {0, -3000, 7000}, t \in PairTilings}
+\* ONE grid tiled twice (identity map, same CRS): every pair of tilings of a 6 x 6 image - equal, same tile count with other boundaries, other counts
+Tilings6 == {<<<<2, 2, 2>>, <<3, 3>>>>, <<<<1, 2, 3>>, <<4, 2>>>>, <<<<3, 2, 1>>, <<2, 4>>>>, <<<<4, 2>>, <<4, 2>>>>, <<<<5, 1>>, <<5, 1>>>>, <<<<6>>, <<1, 5>>>>, <<<<1, 1, 4>>, <<6>>>>}
+SameGridPairs == {Mk2([sy |-> s[1], sx |-> s[2], dy |-> d[1], dx |-> d[2]], <<960, 0, 0, 0, 960, 0>>, "same") : s \in Tilings6, d \in Tilings6}
 \* tiled pairs in really different CRSs (curved footprints): placement of the destination relative to the source footprint in tenths of its span
 RPairs == {[op |-> "rpair", pair |-> pr, dx |-> dx, dy |-> dy, st |-> st, dt |-> dt, zoom |-> z] :
              pr \in {"32633>4326", "32633>3035", "4326>3857", "3035>32633", "3577>4326", "3575>4326"}, dx \in {-7, -3, 0, 4, 30}, dy \in {-6, 0, 5},
              st \in {<<<<20, 20, 20>>, <<20, 20, 20>>>>, <<<<10, 30, 20>>, <<60>>>>, <<<<1, 59>>, <<30, 29, 1>>>>}, dt \in {<<<<16, 16, 16>>, <<16, 16, 16>>>>, <<<<48>>, <<1, 40, 7>>>>}, z \in {"same", "coarser"}}
+\* a source that wraps the whole globe (lon/lat -180..180 x -90..90, or the web-mercator world square) under a regional destination raster:
+\* the source footprint does not survive projection into the destination CRS, the dependencies must still be complete
+GPairs == {[op |-> "rpair", pair |-> pr, dx |-> 0, dy |-> 0, st |-> st, dt |-> dt, zoom |-> "global"] :
+             pr \in {"4326G>32633", "4326G>3035", "4326G>3577", "4326G>3575", "3857G>32633", "3857G>4326"},
+             st \in {<<<<20, 20, 20>>, <<30, 30, 30, 30>>>>, <<<<10, 30, 20>>, <<60, 60>>>>}, dt \in {<<<<16, 16, 16>>, <<16, 16, 16>>>>, <<<<48>>, <<1, 40, 7>>>>}}
 VARIABLE c
 Init == c \in {[k |-> "r", v |-> 0]} \cup {[k |-> "q", v |-> B] : B \in Bases} \cup {[k |-> "p", v |-> s] : s \in PScales}
-Next == "k" \in DOMAIN c /\ c' \in (IF c.k = "q" THEN QueryCases(c.v) ELSE IF c.k = "r" THEN RPairs ELSE PairCases(c.v)) /\ Emit(c')
+Next == "k" \in DOMAIN c /\ c' \in (IF c.k = "q" THEN QueryCases(c.v) ELSE IF c.k = "r" THEN RPairs \cup GPairs ELSE IF c.v = 960 THEN PairCases(c.v) \cup SameGridPairs ELSE PairCases(c.v)) /\ Emit(c')
 Spec == Init /\ [][Next]_c
 \* design level: the transcribed linear path lists every needed source tile
 ModelOK == ("op" \in DOMAIN c /\ c.op = "pair" /\ IsST(c.A)) => LinearComplete([c |-> c, sy |-> c.sy, sx |-> c.sx, dy |-> c.dy, dx |-> c.dx])
